@@ -14,6 +14,7 @@ CONSTANT N
 Tk(k, v) == <<k, v, FALSE>>
 O(k) == <<k, k, FALSE>>
 Num1 == <<FALSE, <<1>>, 0>>
+Big34 == <<FALSE, <<1>>, 33>>
 \* formulas as token sequences (the driver renders them); the last two are rejected by the parser
 Texts == <<
   << Tk("Id", "x"), O("+"), Tk("Num", Num1) >>,                                              \* x + 1
@@ -21,7 +22,10 @@ Texts == <<
   << Tk("Id", "y"), O("."), Tk("Id", "k"), O("?"), Tk("Str", <<97>>), O(":"), Tk("Id", "fail"), O("("), Tk("Num", Num1), O(")") >>,  \* y.k ? 'a' : fail(1)
   << Tk("Id", "max"), O("("), Tk("Id", "x"), O(","), Tk("Num", Num1), O(")") >>,            \* max(x, 1)
   << Tk("Id", "x"), O("+") >>,                                                              \* x +      (rejected)
-  << O("["), Tk("Id", "x"), O(","), Tk("Id", "undefined"), O("]") >>                        \* [x, undefined]
+  << O("["), Tk("Id", "x"), O(","), Tk("Id", "undefined"), O("]") >>,                       \* [x, undefined]
+  << O("("), Tk("Num", Big34), O("+"), Tk("Num", <<FALSE, <<5>>, -1>>), O(")"), O("-"), Tk("Num", Big34) >>,   \* (10^33 + 0.5) - 10^33 : a tie at the 34th digit
+  << Tk("Id", "round"), O("("), Tk("Id", "x"), O(")") >>,                                   \* round(x)
+  << O("("), Tk("Id", "y"), O(")"), O("."), Tk("Id", "k") >>                                \* (y).k  : the analysis refuses it
 >>
 Datas == << [x |-> <<"int", 2>>, y |-> <<"map", [k |-> <<"bool", TRUE>>]>>, fail |-> <<"func", "fail">>],
             [x |-> <<"dec", FALSE, <<2,5>>, -1>>, y |-> <<"map", [k |-> <<"int", 0>>]>>, fail |-> <<"func", "fail">>],
